@@ -973,6 +973,37 @@ DIRECTIVES = ["#if defined(X) && (Y > 1)", "#ifdef X", "#ifndef X", "#elif Y", "
               "#define F(x) ((x) + 1)", "#undef A", "#line 12 \"f.F90\"", "#error stop here", "#warning careful", "#"]
 
 
+def strip_directives(sh):
+    """the shape of a tree without its preprocessor-directive nodes.  Where a directive sits inside a specification part it is wrapped in
+    a part node of its own (an `Implicit_Part` that holds nothing else), and between the components of a derived type it splits the
+    `Component_Part` in two: part nodes left empty are dropped and neighbouring part nodes of one class are joined, so that what is
+    compared is every construct and every statement, in their nesting."""
+    name, kids = sh
+    if not isinstance(kids, list):
+        return sh
+    out = []
+    for k in kids:
+        if isinstance(k, tuple) and isinstance(k[0], str) and k[0].startswith("Cpp_"):
+            continue
+        k = strip_directives(k)
+        if isinstance(k[1], list) and not k[1]:
+            continue
+        if out and isinstance(k[1], list) and isinstance(out[-1][1], list) and out[-1][0] == k[0] and k[0].endswith("_Part"):
+            out[-1] = (k[0], out[-1][1] + k[1])
+            continue
+        out.append(k)
+    return (name, out)
+
+
+def shared_do_boundary(lines, k):
+    """is line k the second `do <label>` of two adjacent DO statements with one label?"""
+    if k == 0:
+        return False
+    a = re.match(r"\s*(?:\w+\s*:\s*)?do\s+(\d+)\b", lines[k - 1], re.I)
+    b = re.match(r"\s*(?:\w+\s*:\s*)?do\s+(\d+)\b", lines[k], re.I)
+    return bool(a and b and a.group(1) == b.group(1))
+
+
 @guarded
 def directive_rule(m, rid, tier):
     r = RuleResult(rid, "preprocessor lines in the tree, by interpretation of whole programs: %d kinds of directive lines are inserted "
@@ -991,7 +1022,11 @@ def directive_rule(m, rid, tier):
         if base[0] != "tree":
             continue
         base_text = str(base[1])
+        base_shape = strip_directives(shape(base[1]))
         lines, cand = statement_lines(src)
+        # (between the DO statements of a nest that shares its terminal statement a directive line makes the parse fail: the named
+        #  case below carries that finding, F74)
+        cand = [k for k in cand if not shared_do_boundary(lines, k)]
         for rep in range(3 if tier == "thorough" else 1):
             pos = sorted(rng.sample(cand + [len(lines)], min(4, len(cand))))
             out, used = [], []
@@ -1018,15 +1053,30 @@ def directive_rule(m, rid, tier):
                 def flat(l):
                     return re.sub(r"^(\d+)\s+", r"\1 ", l.strip())
                 rest = "\n".join(flat(l) for l in text if not l.strip().startswith("#"))
-                ok = got == used and rest == "\n".join(flat(l) for l in base_text.split("\n"))
+                same_text = rest == "\n".join(flat(l) for l in base_text.split("\n"))
+                same_tree = strip_directives(shape(res[1])) == base_shape
+                ok = got == used and same_text and same_tree
                 why = ("the directive lines of the regenerated text are %r, inserted were %r" % (got, used)) if got != used else \
-                    "apart from the directive lines the regenerated text differs from that of the original program"
+                    "apart from the directive lines the regenerated text differs from that of the original program" if not same_text else \
+                    "without its directive nodes the tree is not the tree of the original program (compared class by class, statement " \
+                    "by statement; the part nodes a directive is wrapped in, or splits, are not counted)"
             else:
                 why = "the program is rejected (%s %s)" % (res[1], (res[2] or "")[:70])
             r.ob(ok, "%s: %d directive lines kept in place" % (name, len(used)))
             if not ok:
                 run.fail("directives|%s" % ("rejected" if res[0] != "tree" else "differs"), "program %r with %r inserted before lines %r: %s.  Source: %s"
                          % (name, used, [p + 1 for p in pos], why, show("\n".join(out), 14)))
+    # a directive between the two DO statements of a nest that ends on one shared statement (F74)
+    src = "subroutine Nest(a, n)\n  real :: a(n, n)\n  do 20 i = 1, n\n#ifdef INNER\n  do 20 j = 1, n\n    a(i, j) = 0.0\n20 continue\nend subroutine Nest\n"
+    res = run.parse("f2003", src, ignore_comments=True)
+    if res is not None:
+        r.instances += 1
+        ok = res[0] == "tree"
+        r.ob(ok, "a directive inside a shared-termination DO nest")
+        if not ok:
+            run.fail("directives|shared-do-nest", "a directive line between the two DO statements of a nest that shares its terminal "
+                     "statement makes the program unacceptable (%s %s): inserting a preprocessor line between two statements changed how "
+                     "the Fortran is parsed.  Source: %s" % (res[1], (res[2] or "")[:60].replace("\n", " / "), show(src, 9)))
     # a main program whose body holds nothing but preprocessor lines (sample 'cppbody'), and includes inside nested labelled loops
     src = PS.VALID["cppbody"]
     res = run.parse("f2003", src, ignore_comments=True)
